@@ -24,6 +24,13 @@ for ID in sys.argv[2:]:
             m = re.search(r"(cd /tmp/|CARGO_TARGET_DIR=|OSRG_RUSTYBGP_VERIF_DIR=|RUSTFLAGS=|cargo )", c)
             if m:
                 cmds.append(c[m.start():].strip())
+        cmds = [re.sub(r"git( -C \S+)? apply \S+ && ", "", c) for c in cmds]
+        if not cmds:
+            # a new integration-test file: run exactly that test binary
+            m = re.search(r"^\+\+\+ b/(\w+)/tests/(\w+)\.rs", open(d + "/demo.diff").read(), flags=re.M)
+            if m:
+                crate = {"table": "rustybgp-table", "packet": "rustybgp-packet", "daemon": "rustybgpd"}.get(m.group(1), m.group(1))
+                cmds = [f"cargo test -p {crate} --test {m.group(2)}"]
         if not cmds:
             print(f"VERIFY {d}: no run command found in demo.diff"); continue
         cmd = cmds[0]
